@@ -258,6 +258,20 @@ func c15Run(c c15Case) error {
 			fresh.Capitalize = spg.CapScheme(ws.spec.Scheme)
 			fresh.SeparatorChar, fresh.SeparatorFunc, _ = buildSep(ws.spec.Sep)
 			want = c15Call(method, mk(), nil, fresh)
+			if method == "Generate" && ws.spec.Sep.Kind == "const" {
+				// a value copy with another SeparatorChar is a recipe of its own:
+				// its passwords reflect ITS current fields, not the original's
+				cp := *ws.r
+				cp.SeparatorChar = ws.spec.Sep.Const + "+"
+				gotCp := c15Call(method, mk(), nil, &cp)
+				fr := spg.NewWLRecipe(ws.spec.Length, ws.list)
+				fr.Capitalize = spg.CapScheme(ws.spec.Scheme)
+				fr.SeparatorChar, fr.SeparatorFunc = cp.SeparatorChar, nil
+				if wantCp := c15Call(method, mk(), nil, fr); !reflect.DeepEqual(gotCp, wantCp) {
+					return fmt.Errorf("step %d: Generate on a value copy of wordlist recipe %d with SeparatorChar %q gave %+v; a freshly constructed recipe with the same field values and the same random bytes gives %+v", step, op.Target, cp.SeparatorChar, gotCp, wantCp)
+				}
+				ev.Class("wl_value_copy_with_other_separator")
+			}
 		}
 		if (lastCallOn >= 0 && lastCallOn != op.Target) || setSince[op.Target] {
 			nontrivial = true
